@@ -333,7 +333,9 @@ def build_sqrt(g):
             g.ctrace(f'tr_UQ_R{ax}_{u}', [('a', 'S')], (lambda ax, u: lambda a: getattr(UnitQuaternion, 'R' + ax)(a, u).vec)(ax, u), [0.3],
                      sampler=s_angle(u))
         g.ctrace(f'tr_UQ_AngVec_{u}', AV, (lambda u: lambda th, v: UnitQuaternion.AngVec(th, v, unit=u).vec)(u), [0.4, V_AX],
-                 sampler=(lambda u: lambda rng: s_angle(u)(rng) + [rng.normal(size=3)])(u))
+                 sampler=(lambda u: lambda rng: s_angle(u)(rng) + [s_axis(rng)])(u))
+    g.ctrace('tr_UQ_AngVec_zero', AV, lambda th, v: UnitQuaternion.AngVec(th, v).vec, [0.4, [0, 0, 0]],
+             sampler=lambda rng: [float(rng.uniform(-7, 7)), np.zeros(3)])
     g.ctrace('tr_UQ_EulerVec', [('w', 'V3')], lambda w: UnitQuaternion.EulerVec(w).vec, [V_AX], sampler=s_w)
     PQ = [('p', 'V4'), ('q', 'V4')]
     s_pq = lambda rng: [rand_unit(rng, 4), rand_unit(rng, 4)]
@@ -372,15 +374,17 @@ class Oracle:
 
     def check_value(self, kind, x):
         """returns (residual, problem-or-None) for one element; kind in R2 R3 T2 T3 Q"""
+        if x is None:
+            return float('inf'), 'element-is-None'
         try:
             a = np.asarray(x, dtype=float)
         except Exception:
             return float('inf'), 'not-numeric'
         if kind == 'Q':
             if a.shape != (4,):
-                return float('inf'), 'not-a-4-vector'
+                return float('inf'), 'element-not-a-4-vector'
             r = abs(float(np.linalg.norm(a)) - 1.0)
-            return r, None if r <= TOL else 'norm'
+            return r, None if r <= TOL else 'non-unit-norm'
         n = {'R2': 2, 'R3': 3, 'T2': 3, 'T3': 4}[kind]
         if a.shape != (n, n):
             return float('inf'), 'shape'
@@ -617,6 +621,17 @@ class Oracle:
             self.icall('SE3.interp:vector-s:start', 'T3', 'SE3', lambda: interp_checked(X1, sv, X0).data, ops2, np.r_[inp, sv], multi=True)
             self.icall('SE3.interp:vector-s', 'T3', 'SE3', lambda: interp_checked(Xn, sv).data, [(Tn, 'T3')], np.r_[Tn.flatten(), sv], multi=True)
             self.icall('SE3.interp:multi', 'T3', 'SE3', lambda: interp_checked(SE3([T1, Tn], check=False), s).data, ops2 + [(Tn, 'T3')], inp, multi=True)
+            # ---- 3-D rotations (SO(3) case of trinterp, SO3.interp)
+            R0, R1, Rn = T0[:3, :3], T1[:3, :3], Tn[:3, :3]
+            ops3 = [(R0, 'R3'), (R1, 'R3')]
+            inp3 = np.r_[R0.flatten(), R1.flatten(), s]
+            self.icall('trinterp:so3:start', 'R3', 'base', lambda: base.trinterp(R0, R1, s), ops3, inp3)
+            self.icall('trinterp:so3', 'R3', 'base', lambda: base.trinterp(None, Rn, s), [(Rn, 'R3')], np.r_[Rn.flatten(), s])
+            S0, S1, Sn = SO3(R0, check=False), SO3(R1, check=False), SO3(Rn, check=False)
+            self.icall('SO3.interp:start', 'R3', 'SO3', lambda: interp_checked(S1, s, S0).data, ops3, inp3, multi=True)
+            self.icall('SO3.interp', 'R3', 'SO3', lambda: interp_checked(Sn, s).data, [(Rn, 'R3')], np.r_[Rn.flatten(), s], multi=True)
+            self.icall('SO3.interp:vector-s:start', 'R3', 'SO3', lambda: interp_checked(S1, sv, S0).data, ops3, np.r_[inp3, sv], multi=True)
+            self.icall('SO3.interp:multi', 'R3', 'SO3', lambda: interp_checked(SO3([R1, Rn], check=False), s).data, ops3 + [(Rn, 'R3')], inp3, multi=True)
             # ---- 2-D poses
             a0 = gen_angle(rng)
             sgn = float(rng.choice([-1.0, 1.0]))
@@ -641,12 +656,15 @@ class Oracle:
     # ---- random expression trees through the classes
     def leaf(self, cls):
         x = self.leaf0(cls)
-        if cls in (SE3, SE2, UnitQuaternion) and self.rng.random() < 0.25:
+        if cls in (SO3, SE3, SE2, UnitQuaternion) and self.rng.random() < 0.25:
             # an interpolated value as a leaf: towards a nearby member (relative angle log-uniform), interior s
             th, s = self.rel_angle(), float(self.rng.uniform(0, 1))
             try:
                 if cls is SE3:
                     y = x * SE3.AngVec(th, rand_unit(self.rng))
+                    return interp_checked(y, s, x)
+                if cls is SO3:
+                    y = x * SO3.AngVec(th, rand_unit(self.rng))
                     return interp_checked(y, s, x)
                 if cls is SE2:
                     y = x * SE2(0, 0, th)
@@ -679,12 +697,12 @@ class Oracle:
                 lambda: UnitQuaternion.Eul([gen_angle(rng) for _ in range(3)])][k]()
 
     def tree(self, cls, depth):
-        """returns (description, thunk); interp only where the library supports it on the unchanged tree (not SO3: C11)"""
+        """returns (description, thunk)"""
         rng = self.rng
         if depth == 0 or rng.random() < 0.15:
             x = self.leaf(cls)
             return f"leaf{hexl(x.A)}", (lambda: x)
-        ops = ['mul', 'div', 'inv', 'pow', 'prod'] + (['interp'] if cls in (SE3, SE2, UnitQuaternion) else [])
+        ops = ['mul', 'div', 'inv', 'pow', 'prod'] + (['interp'] if cls in (SO3, SE3, SE2, UnitQuaternion) else [])
         op = str(rng.choice(ops))
         da, fa = self.tree(cls, depth - 1)
 
@@ -757,31 +775,15 @@ def raise_site(ex):
     return site
 
 
-class RefusedNone(Exception):
-    """a pose-class interp() handed its values to the constructor's list path with check=True, which silently stored None
-    for the elements it refused; .values are those refused matrices, recomputed with the base function"""
-    def __init__(self, values):
-        super().__init__('constructor stored None for a refused element')
-        self.values = values
-
-
 def interp_checked(obj, s, start=None):
-    """obj.interp(s, start) for SE3 / SE2 / SO2 objects; raises RefusedNone when the result holds None elements"""
-    r = obj.interp(s, start=start) if start is not None else obj.interp(s)
-    if any(e is None for e in r.data):
-        f = base.trinterp if obj.N == 3 else base.trinterp2
-        st = None if start is None else start.A
-        sl = list(np.atleast_1d(np.asarray(s, dtype=float)))
-        vals = [f(st, obj.A, s=_s) for _s in sl] if len(sl) > 1 else [f(st, x, s=sl[0]) for x in obj.data]
-        raise RefusedNone([v for v, e in zip(vals, r.data) if e is None])
-    return r
+    """obj.interp(s, start) for pose objects (an element the constructor refuses raises ValueError in its list path; a None
+    element would be reported by check_value as element-is-None)"""
+    return obj.interp(s, start=start) if start is not None else obj.interp(s)
 
 
 def rejected_by_constructor(ex):
     """if the exception was raised inside SO2/SE2/SO3/SE3/UnitQuaternion.__init__ (the strict re-validation of an
     argument), return the list of elements that constructor was given; else None"""
-    if isinstance(ex, RefusedNone):
-        return ex.values
     tb, hit = ex.__traceback__, None
     while tb is not None:
         co = tb.tb_frame.f_code
